@@ -95,4 +95,41 @@ example :
     E.events.isEmpty = false ∧ (E.doEvents 1 s).te = [] ∧ (E.doEvents 1 s).value = [1 - 1/1000000000] := by
   decide +kernel
 
+/-- the reference a component is compared with: its value at the last step end, unless that is exactly zero — then the reference it
+had before (so −, 0, + is seen as a sign change on the step that leaves the zero) -/
+theorem C10_reference_value {α : Type} (E : RodasEnv α) (s : RodasState α) (i : Nat) (hv : i < s.value.length) (hr : i < s.vref.length) :
+    (E.refValues s).getD i E.O.zero =
+      if E.isZero (s.value.getD i E.O.zero) then s.vref.getD i E.O.zero else s.value.getD i E.O.zero := by
+  unfold refValues
+  have hl : i < (List.zipWith (fun v r => if E.isZero v then r else v) s.value s.vref).length := by
+    simp [List.length_zipWith]; omega
+  simp [List.getD_eq_getElem?_getD, List.getElem?_eq_getElem hl, List.getElem?_eq_getElem hv, List.getElem?_eq_getElem hr]
+
+/-- a component is examined by the event block exactly when its value at the new step end and its reference have strictly opposite
+signs -/
+theorem C10_crossings_iff {α : Type} (E : RodasEnv α) (s : RodasState α) (i : Nat) :
+    i ∈ E.crossings s ↔ i < E.events.length ∧
+      E.opp ((E.evalEvents s.t).getD i E.O.zero) ((E.refValues s).getD i E.O.zero) = true := by
+  unfold crossings; simp [List.mem_filter]
+
+/-- over ℚ: g(t) = t − 1/2 with steps ending at 0, 1/2 (exactly on the zero) and 1.  The step that reaches the zero sees no sign
+change, the step that leaves it does, and the event is recorded once, within 2⁻⁹⁰ of the crossing -/
+theorem C10_zero_at_step_end_reported :
+    let E : RodasEnv ℚ := { O := ratO, spacing := fun _ => 0, uround := 0, tiny := 0, half := 1/2, c128 := 128,
+                            tspan := [0, 1], opt := ⟨1/5, 6, 6, none, none, false, 1/100000000⟩,
+                            events := [⟨1/2, 0, false⟩] }
+    let s1 : RodasState ℚ := E.doEvents (1/2) { E.init with t := 1/2, told := 0 }
+    let s2 : RodasState ℚ := E.doEvents (1/2) { s1 with t := 1, told := 1/2 }
+    s1.te = [] ∧ s1.value = [0] ∧ s1.vref = [-1/2] ∧ s2.te.length = 1 ∧
+      (s2.te.all fun τ => decide (1/2 ≤ τ ∧ τ ≤ 1/2 + 1/1000000000000000000000000000)) = true := by
+  decide +kernel
+
+/-- the search for the event time no longer depends on the scale of the event function: for every scale c > 0 the values c·v0 < 0 < c·v1
+differ, so the secant start and the bisection are entered (before the repair `|v1 − v0| > uround` skipped them for small c) -/
+theorem C10_search_entered_at_any_scale (E : RodasEnv ℚ) (hO : E.O = ratO) (v0 v1 c : ℚ) (h0 : v0 < 0) (h1 : 0 < v1) (hc : 0 < c) :
+    (!(E.O.le (c * v1) (c * v0) && E.O.le (c * v0) (c * v1))) = true := by
+  have hle : ∀ a b : ℚ, E.O.le a b = decide (a ≤ b) := by intro a b; rw [hO]; rfl
+  have : c * v0 < c * v1 := by nlinarith
+  simp [hle, not_le.mpr this]
+
 end Solverz
